@@ -49,9 +49,9 @@ def base_program(rng):
 def run(check):
     n = check.pick(120, 1200)
     check.rule = ("one prepared workflow executed N times: sequentially and overlapped (N in {2,4,8,16,32}), with distinct inputs whose unique tag flows through every step "
-                  "to the output; per-tag outcome scripts (some runs fail on purpose), one run of an overlapped group cancelled mid-way, re-runs after failed and cancelled "
+                  "to the output; per-tag outcome scripts (some runs fail on purpose, some inputs make an expression fail at run time, some loop items end their sub-run with an error), one run of an overlapped group cancelled mid-way, re-runs after failed and cancelled "
                   "runs, and two workflows prepared from the same text used alternately; oracles: every run's result equals the reference for *its* input (isolated "
-                  "first-run semantics), every value seen at the plugin boundary carries exactly one run's tag, a cancelled sibling perturbs nobody; "
+                  "first-run semantics), a one-of whose alternatives are produced in a fixed order chooses the same alternative in every run, every value seen at the plugin boundary carries exactly one run's tag, a cancelled sibling perturbs nobody; "
                   "non-trivial = >=2 runs; distinct = (shape, N, overlap mode, failing-run pattern)")
     check.assumptions = ["the deployer scripts depend only on the input tag, so the reference for one run is independent of the others"]
     items = []
